@@ -489,6 +489,10 @@ pub fn scenarios(prop: &str, thorough: bool) -> Vec<StakingScenario> {
 
 pub fn run(prop: &str, thorough: bool) -> i32 {
     let mut r = Runner::new(prop, if thorough { "thorough" } else { "quick" });
+    if prop == "C08" {
+        // "Withdraw only ever pays the caller's own request" also on batches written before requests were counted
+        crate::store_pin::counterless_batches(&mut r, "C08");
+    }
     if prop == "C10" {
         fresh_instances(&mut r);
         halted_survives_migration(&mut r);
